@@ -29,6 +29,7 @@ EXTENDS Naturals, Sequences, FiniteSets, TLC
 
 None == "none"
 Bad  == "bad"          \* content of a disk-layer file after corrupt(k)
+Nil  == "e"            \* the empty value (zero bytes); also what trunc0(k) leaves in a disk-layer file
 
 \* ------------------------------------------------------------------ helpers
 Held(Li)        == {k \in DOMAIN Li : Li[k] # None}
@@ -157,12 +158,20 @@ LayerOk(C, g, L, e, M) ==
     [] e.op = "tick" -> Same(L, M)            \* expiry itself is handled by Verdict / TickOk
     [] OTHER -> FALSE
 
-\* environment actions on the disk layer's files are not judged: they define M
-FaultOps == {"corrupt", "delete"}
+\* environment actions on the disk layer's files are not judged: they define M.  corrupt = overwrite with
+\* other bytes, delete, trunc0 = truncate to zero bytes, trunc1 = drop the last byte, extend1 = append a byte.
+\* The event says what the file holds afterwards (`now`, read back by the driver, None when deleted).
+FaultOps == {"corrupt", "delete", "trunc0", "trunc1", "extend1"}
+FaultVal(op, v, base) ==        \* the same naming as the driver's, for the machine of part 2
+  CASE op = "corrupt" -> Bad
+    [] op = "delete"  -> None
+    [] op = "trunc0"  -> Nil
+    [] op = "trunc1"  -> IF v \in base THEN v \o "-" ELSE IF v = Nil THEN Nil ELSE "other"
+    [] op = "extend1" -> IF v \in base \cup {Nil} THEN v \o "+" ELSE "other"
 FaultNext(C, L, e) ==
   LET d == DiskOf(C) IN
   IF d = 0 \/ e.res # "true" THEN L
-  ELSE [L EXCEPT ![d] = [k \in DOMAIN L[d] |-> IF k = e.k THEN (IF e.op = "corrupt" THEN Bad ELSE None) ELSE L[d][k]]]
+  ELSE [L EXCEPT ![d] = [k \in DOMAIN L[d] |-> IF k = e.k THEN e.now ELSE L[d][k]]]
 
 \* --- coherence of the answers -------------------------------------------
 Answers(e) ==      \* <<key, answer>> pairs a call gives to its caller
@@ -210,7 +219,7 @@ GhostAfter(C, g, L, e, M) ==
       fresh1 == [k \in DOMAIN g.fresh |->
                   IF wput /\ k \in ks THEN {LastVal(items, k)}
                   ELSE IF e.op = "put_layer" /\ r = "ok" /\ k = e.k THEN g.fresh[k] \cup {e.v}
-                  ELSE IF e.op = "corrupt" /\ r = "true" /\ k = e.k THEN g.fresh[k] \cup {Bad}
+                  ELSE IF e.op \in FaultOps /\ r = "true" /\ k = e.k THEN g.fresh[k] \cup ({e.now} \ {None})
                   ELSE IF e.op = "clear" \/ (e.op = "remove" /\ k = e.k) THEN {}
                   ELSE g.fresh[k]]
       stale1 == [k \in DOMAIN g.stale |->
@@ -336,16 +345,16 @@ Atomic(e) ==
          {Out(L, "ok", trk \cup {k \in ks : First(L, k) # None}, shortE,
               delP \ {k \in ks : HitLayer(L, k) = 0 \/ HitLayer(L, k) > Dk})
             @@ [rs |-> [n \in 1..Len(e.ks) |-> First(L, e.ks[n])]]}
-    [] e.op = "corrupt" ->
-         IF Dk > 0 /\ L[Dk][e.k] # None THEN {Out(WithKey(L, Dk, e.k, Bad), "true", trk, shortE, delP)}
-         ELSE {Out(L, "false", trk, shortE, delP)}
-    [] e.op = "delete" ->
-         IF Dk > 0 /\ L[Dk][e.k] # None THEN {Out(WithKey(L, Dk, e.k, None), "true", trk, shortE, delP \cup {e.k})}
-         ELSE {Out(L, "false", trk, shortE, delP)}
+    [] e.op \in FaultOps ->
+         IF Dk > 0 /\ L[Dk][e.k] # None
+         THEN LET w == FaultVal(e.op, L[Dk][e.k], Vals) IN
+              {Out(WithKey(L, Dk, e.k, w), "true", trk, shortE, IF e.op = "delete" THEN delP \cup {e.k} ELSE delP) @@ [now |-> w]}
+         ELSE {Out(L, "false", trk, shortE, delP) @@ [now |-> None]}
     [] e.op = "tick" -> {Out(Drop(L, shortE), "ok", trk, {}, delP)}
 
 Finish(e, o) ==     \* a call has returned: record it for the judge, advance the ghost
-  LET ev == e @@ (IF "rs" \in DOMAIN o THEN [res |-> o.res, rs |-> o.rs] ELSE [res |-> o.res]) IN
+  LET ev == e @@ (IF "rs" \in DOMAIN o THEN [res |-> o.res, rs |-> o.rs]
+                  ELSE IF "now" \in DOMAIN o THEN [res |-> o.res, now |-> o.now] ELSE [res |-> o.res]) IN
   /\ done' = ev /\ pre' = L /\ L' = o.M /\ trk' = o.trk /\ shortE' = o.shortE /\ delP' = o.delP
   /\ gp' = g /\ g' = GhostAfter(Cfg, g, L, ev, o.M)
 
